@@ -273,6 +273,7 @@ func genAll(w *bufio.Writer, seed uint64, tier string) {
 		for _, k := range []int{1, 2, 8} {
 			g.emit("C15 cacherace %d %d", e, k)
 			g.emit("C15 cacherace %d %d rev", e, k)
+			g.emit("C15 cachecancel %d %d", e, k)
 		}
 		// the pinned path end to end through the worker handler, with and without a configured token timeout
 		for _, t := range []int{0, 7} {
